@@ -24,6 +24,7 @@ const (
 	FaultPartial    = "error_with_partial_data"
 	FaultTransient  = "transient_custom"
 	FaultTypedEOF   = "typed_error_then_eof" // first failing Read returns a *DeviceFault, every later Read returns io.EOF
+	FaultTransientPartial = "transient_error_with_partial_data" // once: an error returned together with a partial read; afterwards the source delivers again
 	FaultTemporary  = "temporary_error"      // an error whose Temporary() method reports true (EAGAIN-like), returned on every Read from the fault on
 )
 
@@ -35,7 +36,7 @@ func (TemporaryFault) Temporary() bool { return true }
 func (TemporaryFault) Timeout() bool   { return false }
 
 // FaultKinds lists all injectable failure kinds.
-var FaultKinds = []string{FaultEOF, FaultUnexpected, FaultCustom, FaultPartial, FaultTransient, FaultTypedEOF, FaultTemporary}
+var FaultKinds = []string{FaultEOF, FaultUnexpected, FaultCustom, FaultPartial, FaultTransient, FaultTypedEOF, FaultTemporary, FaultTransientPartial}
 
 // Reader is a concurrency-safe stream over a fixed byte slice with a chunk
 // plan (how many bytes each Read may return), an optional fault offset and an
@@ -121,7 +122,7 @@ func (r *Reader) Read(p []byte) (int, error) {
 			if r.Fault >= 0 {
 				err = r.failure()
 				r.Faulted++
-				if r.Kind == FaultTransient {
+				if r.Kind == FaultTransient || r.Kind == FaultTransientPartial {
 					r.Fault = -1 // fails once, then keeps delivering
 				}
 			} else {
@@ -131,9 +132,12 @@ func (r *Reader) Read(p []byte) (int, error) {
 			if want > avail {
 				want = avail
 				// the fault is reached inside this read
-				if r.Fault >= 0 && r.Kind == FaultPartial {
+				if r.Fault >= 0 && (r.Kind == FaultPartial || r.Kind == FaultTransientPartial) {
 					err = r.failure()
 					r.Faulted++
+					if r.Kind == FaultTransientPartial {
+						r.Fault = -1 // fails once (together with data), then keeps delivering
+					}
 				}
 			}
 			n = copy(p[:want], r.data[r.off:r.off+want])
